@@ -177,6 +177,48 @@ fn run_large<H: HK>(ctx: &mut Ctx, arena: &Arena, bases: &[usize]) {
     }
 }
 
+/// Two interpretations of the same memory in a row (results must not depend on what an earlier call saw): every
+/// ordered pair over header kind x slice length x declared size, both slices starting at the same address.
+fn call_pairs(ctx: &mut Ctx, arena: &Arena) {
+    fn put<H: HK>(arena: &Arena, len: usize, decl: u32) -> &'static [u8] {
+        let mut img = vec![0u8; len];
+        let t = H::template();
+        for i in 0..len {
+            img[i] = if i < H::HDR { t[i] } else { marker(i, 1) };
+        }
+        if len >= H::SIZE_OFF + 4 {
+            wr32(&mut img, H::SIZE_OFF, decl);
+        }
+        let p = arena.place_at(0, &img);
+        unsafe { std::slice::from_raw_parts(p, len) }
+    }
+    fn one(ctx: &mut Ctx, arena: &Arena, k: usize, len: usize, decl: u32) {
+        match k {
+            0 => check_one::<TagHeader>(ctx, put::<TagHeader>(arena, len, decl), decl as usize, 0),
+            1 => check_one::<BootInformationHeader>(ctx, put::<BootInformationHeader>(arena, len, decl), decl as usize, 0),
+            2 => check_one::<HeaderTagHeader>(ctx, put::<HeaderTagHeader>(arena, len, decl), decl as usize, 0),
+            _ => check_one::<Multiboot2BasicHeader>(ctx, put::<Multiboot2BasicHeader>(arena, len, decl), decl as usize, 0),
+        }
+    }
+    const LENS: [usize; 4] = [8, 16, 24, 32];
+    const DECLS: [u32; 4] = [8, 16, 24, 32];
+    const NAMES: [&str; 4] = ["TagHeader", "BootInformationHeader", "HeaderTagHeader", "Multiboot2BasicHeader"];
+    ctx.bound("call_pairs", "every ordered pair of interpretations (header kind x slice length {8,16,24,32} x declared size {8,16,24,32}) of slices starting at one and the same address, each judged by the stateless reference: 4096 pairs");
+    for a in 0..64usize {
+        for b in 0..64usize {
+            let (ka, la, da) = (a / 16, LENS[a / 4 % 4], DECLS[a % 4]);
+            let (kb, lb, db) = (b / 16, LENS[b / 4 % 4], DECLS[b % 4]);
+            let describe = || J::obj().set("part", "call_pairs").set("first", format!("{} on {} bytes declaring {}", NAMES[ka], la, da)).set("second", format!("{} on {} bytes declaring {}", NAMES[kb], lb, db));
+            ctx.leaf(describe, |ctx| {
+                ctx.state_direct();
+                arena.fill(arena::FILL_A);
+                one(ctx, arena, ka, la, da);
+                one(ctx, arena, kb, lb, db);
+            });
+        }
+    }
+}
+
 fn check_one<H: HK>(ctx: &mut Ctx, slice: &[u8], decl: usize, align: usize) {
     let len = slice.len();
     // reference verdict, in the stated precedence
@@ -385,6 +427,7 @@ fn run(ctx: &mut Ctx) {
     run_large::<BootInformationHeader>(ctx, &big, &bases);
     run_large::<HeaderTagHeader>(ctx, &big, &bases);
     run_large::<Multiboot2BasicHeader>(ctx, &big, &bases);
+    call_pairs(ctx, &arena);
     rounding(ctx);
 }
 
